@@ -118,7 +118,8 @@ def run(ctx):
     ctx.coverage["evaluations"] = ev
     ctx.coverage["distinct_nontrivial"] = nt
     ctx.coverage["kinds"] = kinds
-    ctx.coverage["exhaustive"] = "every byte 0x01..0x7f x every spelling x both quotes (alone and embedded)" + ("" if quick else "; \\x followed by every pair of ASCII characters")
+    ctx.coverage["exhaustive"] = True
+    ctx.coverage["exhaustive_over"] = "every byte 0x01..0x7f x every spelling x both quotes (alone and embedded)" + ("" if quick else "; \\x followed by every pair of ASCII characters")
     ctx.coverage["rule"] = ("every byte 0x01..0x7f x {raw, named escape, \\xhh, \\xHH, backslash-char} x {single, double quotes} alone and embedded; \\x followed by 0/1/2 hex digits and other characters "
                             "(all pairs in the thorough tier); random mixed spellings: `find all <literal>` must compile, match b as one whole-text match and match no near miss of the same length; "
                             "token lexemes compared with the model; non-trivial = literals fully confirmed")
